@@ -356,6 +356,8 @@ func scenarios(r *ev.Run) []scenario {
 		{Name: "setcap-cap1max2", Cap: 1, Max: 2, Threads: []string{"GP", "C2", "GP"}},
 		{Name: "setcap-cap1max3", Cap: 1, Max: 3, Threads: []string{"GGPP", "C2", "GP"}},
 		{Name: "setcap-shrink", Cap: 2, Max: 3, Threads: []string{"GP", "C1", "GP"}},
+		// a base capacity above the maximum must not let more than Max resources out (seed c24-5)
+		{Name: "setcap-above-max", Cap: 1, Max: 2, Threads: []string{"GGPP", "C3", "GP"}},
 		{Name: "close-cap1max2", Cap: 1, Max: 2, Threads: []string{"GP", "X", "GP"}},
 		{Name: "close-scaleout", Cap: 1, Max: 2, Pre: 1, Threads: []string{"GP", "X", "R"}},
 		{Name: "close-setcap", Cap: 1, Max: 2, Threads: []string{"GP", "X", "C2"}},
